@@ -105,7 +105,7 @@ CHECKS.update({
 CHECKS.update({
     "C15": ("fault_enumeration",
             "exhaustive crash-point x torn-write and single-OSError enumeration over the recorded file-system effect log of the real migration code, with recovery (re-run) oracle",
-            "For `tally up --migrate`, `tally init` and run_migrations on 28 budget variants the command runs under a harness-side file-system interposer that numbers every create / "
+            "For `tally up --migrate`, `tally init` and run_migrations on 36 budget variants (incl. half-migrated ones whose ./tally already holds same-named files) the command runs under a harness-side file-system interposer that numbers every create / "
             "flush / append / rename / mkdir / remove; for every effect k the run is repeated with a crash right after k (plus data torn to half / nothing when k lands data) and with an "
             "OSError instead of k (for a step issued by shutil.move also with the whole move failing, copy fallback included). Each resulting tree must keep every user file's bytes, must classify the probe statement with the user's rules either directly or after one fault-free "
             "re-run of the same command, and must never classify everything as Unknown while the rules exist on disk. The interposer is checked for transparency and for unowned effects "
